@@ -46,3 +46,47 @@ def kneedle(ctx):
         print("GROWTH-MISMATCH module=Kneedle %s" % m)
     ctx.traces += len(beh)
     return mism
+
+
+def _nb_record(item):
+    import random
+    import kneeliverse.evaluation as ev
+    import kneeliverse.linear_fit as lf
+    from harness import curves, monitor
+    cid, seed, mode = item
+    rng = random.Random(seed)
+    P = curves.random_curve(rng, 8, 60)
+    x, y = P[:, 0], P[:, 1]
+    n = len(P)
+    a = rng.randint(3, n - 1)
+    b = rng.randint(0, a - 2)
+    t = rng.choice([0.5, 0.8, 0.9, 0.95, 0.99])
+    fn = {"linear": ev.get_neighbourhood, "binary": ev.get_neighbourhood_binary, "fast": ev.get_neighbourhood_fast}[mode]
+    out, val, _ = monitor.call(fn, (x, y, a, b, t), budget=50 * n + 500, wall=20)
+    i = -1
+    if out == "returned":
+        i = int(val[0]) if isinstance(val, tuple) else int(val)
+    r2 = [float(lf.linear_r2(x[k:a + 1], y[k:a + 1], lf.linear_fit(x[k:a + 1], y[k:a + 1]))) if k < a else 1.0 for k in range(n)]
+    return {"id": cid, "mode": mode, "outcome": out, "a": a, "b": b, "i": i,
+            "good": [bool(v > t) for v in r2],        # get_neighbourhood continues while r2 > t
+            "goodge": [bool(not (v < t)) for v in r2]}, {"points": P.tolist(), "a": a, "b": b, "t": t, "mode": mode}
+
+
+def neighbourhood(ctx):
+    """Neighbourhood.tla: the three R2 neighbourhood searches (termination, bracket, leftmost good run)."""
+    ctx.mc("Neighbourhood", "MC_Neighbourhood", need_actions=("WalkLeft", "WalkEnd", "Bisect", "BisectEnd", "WalkRight", "RightEnd"))
+    items = [("nb%d" % k, ctx.seed * 4099 + k, ("linear", "binary", "fast")[k % 3]) for k in range(300 if ctx.quick else 3000)]
+    rec = par.pmap(_nb_record, items)
+    st = {"id": "s", "mode": "linear", "outcome": "returned", "a": 5, "b": 0, "i": 2,
+          "good": [False, False, True, True, False, False], "goodge": [False] * 6}
+    rej = ctx.trace("Trace_Neighbourhood", [c for c, _ in rec], chunk=400,
+                    selftest=[(st, "ok"), (dict(st, i=3), "leftmost-run"), (dict(st, i=7), "bracket")])
+    meta = {c["id"]: m for c, m in rec}
+    mism = [{"clause": vs[0][0], "call": {k: v for k, v in meta[cid].items() if k != "points"}, "n": len(meta[cid]["points"])} for cid, vs in rej.items()]
+    ctx.extra.setdefault("growth", {})["Neighbourhood"] = {
+        "calls_validated": len(rec), "mismatches": len(mism), "first_mismatches": mism[:3],
+        "what": "evaluation.get_neighbourhood / get_neighbourhood_binary / get_neighbourhood_fast vs the loop machines of "
+                "spec/Neighbourhood.tla (bracket, leftmost run of passing fits, passing result); beyond the listed properties, note only"}
+    for m in mism[:3]:
+        print("GROWTH-MISMATCH module=Neighbourhood %s" % m)
+    return mism
